@@ -431,7 +431,7 @@ func check(scen string, in In) []*mc.Violation {
 
 func Replay(scenario string, raw json.RawMessage) []*mc.Violation {
 	var in In
-	if err := json.Unmarshal(raw, &in); err != nil {
+	if err := mc.UnmarshalInput(raw, &in); err != nil {
 		return nil
 	}
 	// a fatal runtime error would take the replaying process with it: probe in a process of its own first
